@@ -12,7 +12,7 @@ SPEC = {
          'src': 'harness/internal/plugincommon/discovery/c01_test.go', 'test': 'TestVerif_C01_disc', 'fakes': True,
          'sinks': {'C01_disc': 'disc_judge'}, 'n': {'quick': 500, 'thorough': 20000}},
     ],
-    'known': {},
+    'known': {},   # F03 (discovery on-ramp threshold without agreed dest f) is repaired by fixes/F03.patch, not recorded
     'rule': 'mr: DONs of 4..13 oracles (random ids), F = (N-1)/3 (plus F in {0,-1,random}), destination + 1..4 source chains with '
             'f_k in 1..3 and random reader sets; per chain and field (root / on-ramp max / off-ramp next / RMN remote config / fChain) '
             'the number of oracles voting value A is drawn from {0, thr-1, thr, thr+1, all} and a competing value B gets its own such count '
